@@ -36,6 +36,18 @@ CHECKS = {
         note="The decoder is a hand model of what the pattern denotes; its tie to the regex is the differential run (ids, junk "
              "strings with newlines and digit runs). Known finding K1 (8-digit respins).",
         design="DESIGN.md section 6 C15"),
+    "C19": dict(
+        text="Generic Coq theorems about the backtracking matcher: C19_same_matcher (the step-counting matcher computes the same "
+             "result as the matcher proved sound and complete against the declarative regex semantics), C19_steps_poly / "
+             "C19_work_poly / C19_exits_poly (for every expression meeting the syntactic criterion `safe`, steps on ANY string s "
+             "are <= c*(|s|+1)^d with (c,d) computed from the expression; the key lemma is unambiguity of delimiter-led star "
+             "bodies, star_delim_nodup), and C19_all_safe: `safe` holds (vm_compute) for every pattern regenerated from the "
+             "source on this run (static scan + module attributes + run-time capture). When an expression is not safe the check "
+             "searches pump families for a blow-up of the model's step count and replays it on the real engine under a timeout.",
+        note="Partial: CPython's sre engine is modelled as textbook greedy backtracking (validated by the rx differential "
+             "suite, group spans included); its wall-clock time is assumed polynomially related to the model's step count; "
+             "non-regex parsers are argued linear, not proved. Degrees are coarse (<= 6 for RPM_NVRA_RE).",
+        design="DESIGN.md section 6 C19"),
 }
 
 TECH = "machine-checked proof in Coq over a hand model + regenerated data; differential correspondence with the implementation"
